@@ -273,15 +273,45 @@ def comb_item(name, cfg, tier='quick', timeout_s=10, seed=0):
         if o not in spec and not any(k.startswith('pred:') for k in spec):
             obls.append(('unspecified_output[%s]' % o, [], ir.FALSE))
     for (cl, hy, goal) in obls:
-        v = smt.prove(hy, goal, mode=lemma_mode.get(cl, 'bv'), timeout_s=b.timeout or timeout_s, opaque_mul=bool(getattr(b, 'opaque_mul', False)))
+        v = smt.prove(hy, goal, mode=lemma_mode.get(cl, 'bv'), timeout_s=(b.timeout(tier) if callable(b.timeout) else b.timeout) or timeout_s, opaque_mul=bool(getattr(b, 'opaque_mul', False)), use_cvc5=not getattr(b, 'no_cvc5', False))
         rep = None
         if v.status == 'refuted' and cl not in lemma_mode:
             r = L.Result(base + '#' + cl, v, None, hy, goal, cfg, None, 'bv')
-            v, rep = decide_with_replay(r, lambda m: replay_comb(b, cfg, m, spec, req), b.timeout or timeout_s, rounds=4)
+            v, rep = decide_with_replay(r, lambda m: replay_comb(b, cfg, m, spec, req), (b.timeout(tier) if callable(b.timeout) else b.timeout) or timeout_s, rounds=4)
         out.append({'oid': base + '#' + cl, 'status': v.status, 'mode': 'composition/width-grid', 'backend': v.backend,
                     'seconds': round(v.seconds, 4), 'reason': v.reason, 'model': v.model if v.status == 'refuted' else None,
                     'cfg': cfg, 'replay': rep, 'function': name, 'leaves': len(nl.prop)})
+    if any(r['status'] == 'unknown' for r in out):
+        out.extend(bounded_comb(b, cfg, tier, seed, ins))
     return out
+
+
+def bounded_comb(b, cfg, tier, seed, ins, n=None):
+    """bounded stand-in for a block configuration whose obligation stayed undecided: the real simulator against
+    the specification on boundary + seeded random inputs inside the block's requires (labelled bounded)"""
+    rnd = random.Random(seed * 7907 + hash(_cfg_tag(cfg)) % 100003)
+    n = n or (300 if tier == 'quick' else 3000)
+    tried = 0; ok = 0
+    base = 'block::%s@%s' % (b.name, _cfg_tag(cfg))
+    for k in range(n * 20):
+        if ok >= n: break
+        if getattr(b, 'sampler', None):
+            model = b.sampler(cfg, rnd)
+        else:
+            model = {}
+            for nme, w in ins.items():
+                top = (1 << w.getWidth()) - 1
+                model['in:' + nme] = rnd.choice([0, 1, top, top >> 1, (top >> 1) + 1, rnd.randint(0, top), rnd.randint(0, top)])
+        tried += 1
+        rep = replay_comb(b, cfg, model)
+        if rep.get('reproduced'):
+            return [{'oid': base + '#bounded', 'status': 'bounded-fail', 'bounded': True, 'evaluations': ok + 1, 'model': model, 'cfg': cfg,
+                     'replay': rep, 'function': b.name, 'mode': 'bounded-native'}]
+        if 'violates the block requires' in (rep.get('note') or ''):
+            continue
+        ok += 1
+    return [{'oid': base + '#bounded', 'status': 'bounded-ok', 'bounded': True, 'evaluations': ok, 'cfg': cfg, 'function': b.name,
+             'mode': 'bounded-native', 'tried': tried}]
 
 
 def _call_spec(b, cfg, I, widths, O):
@@ -311,6 +341,7 @@ def replay_comb(b, cfg, model, spec=None, req=None):
         info.update(reproduced=True, got='raises %r' % (e,), expected='settles'); return info
     byid, I = N.input_vars(ins)
     widths = {n: w.getWidth() for n, w in outs.items()}; widths.update({n: w.getWidth() for n, w in ins.items()})
+    info['outputs'] = {n: w.get() for n, w in outs.items()}
     O = {n: ir.const(w.get()) for n, w in outs.items()}
     if getattr(b, 'swap', None):
         x, y = b.swap
